@@ -65,7 +65,7 @@ Lemma mkdir_preserves fs p : preserves fs (fst (mkdir fs p)).
 Proof.
   unfold mkdir. destruct (pexists fs p) eqn:E; [apply preserves_refl |].
   destruct (split_last p) as [[par n] |]; [| apply preserves_refl].
-  destruct (kind_of fs par) as [[| c] |]; cbn [fst]; try apply preserves_refl.
+  destruct (dir_status fs par) as [e |]; cbn [fst]; try apply preserves_refl.
   apply preserves_set_fresh. apply pexists_false_lookup. exact E.
 Qed.
 
@@ -73,7 +73,7 @@ Lemma mkdir_ok fs p fs' : mkdir fs p = (fs', Ok tt) -> lookup fs p = None /\ loo
 Proof.
   unfold mkdir. destruct (pexists fs p) eqn:E; [discriminate |].
   destruct (split_last p) as [[par n] |]; [| discriminate].
-  destruct (kind_of fs par) as [[| c] |]; try discriminate.
+  destruct (dir_status fs par) as [e |]; try discriminate.
   intros H. inversion H; subst. split; [apply pexists_false_lookup; exact E |].
   rewrite lookup_set, path_eqb_refl. reflexivity.
 Qed.
@@ -115,7 +115,7 @@ Qed.
 Lemma create_file_excl_preserves fs p c : preserves fs (fst (create_file fs p false c)).
 Proof.
   unfold create_file. destruct (split_last p) as [[par n] |]; [| apply preserves_refl].
-  destruct (kind_of fs par) as [[| c'] |]; try apply preserves_refl.
+  destruct (dir_status fs par) as [e |]; try apply preserves_refl.
   destruct (lookup fs p) as [[| c'] |] eqn:L; cbn [fst]; try apply preserves_refl.
   apply preserves_set_fresh. exact L.
 Qed.
@@ -123,7 +123,7 @@ Qed.
 Lemma create_file_other fs p ow c q : p <> q -> lookup (fst (create_file fs p ow c)) q = lookup fs q.
 Proof.
   intros H. unfold create_file. destruct (split_last p) as [[par n] |]; [| reflexivity].
-  destruct (kind_of fs par) as [[| c'] |]; try reflexivity.
+  destruct (dir_status fs par) as [e |]; try reflexivity.
   destruct (lookup fs p) as [[| c'] |]; try destruct ow; cbn [fst]; try reflexivity;
     rewrite lookup_set, (path_eqb_false p q H); reflexivity.
 Qed.
@@ -256,7 +256,7 @@ Proof.
   induction 1 as [| x dds Hs IH Hx]; cbn [latest_in].
   - intros dd' t' ff' (H & _). destruct H.
   - destruct (match_digits 8 x) eqn:Em.
-    + unfold oslistdir. destruct (kind_of fs [x]) as [[| c] |] eqn:Ek; try exact I.
+    + unfold oslistdir. destruct (dir_status fs [x]) as [e |] eqn:Ek; try exact I.
       pose proof (first_match_spec fs x label (sort_desc (listdir fs [x])) (sort_desc_sorted _)) as FM.
       destruct (first_match fs x label (sort_desc (listdir fs [x]))) as [[[d t] ff] |].
       * destruct FM as (-> & B & C & D). split.
